@@ -18,3 +18,16 @@ package aquadb
 //@   ensures result == nil ==> flushed
 //@   ensures result != nil ==> !flushed
 //@   assigns flushed
+
+// Ghost write clock of the batch: putat[k] is the position (in the order of successful Put
+// calls) at which the 32-byte key k was last put (ghost instrumentation, assumed at call sites;
+// keys given as a whole-array slice, offset 0).
+//@ ghost putclock Int
+//@ ghost putat (Array (Array (_ BitVec 64) (_ BitVec 8)) Int)
+
+//@ type Batch.Put
+//@   trusted
+//@   ensures result == nil && off(key) == 0 ==> putat == store(old(putat), old(arr(key)), old(putclock)) && putclock == old(putclock) + 1
+//@   ensures result != nil ==> putat == old(putat) && putclock == old(putclock)
+//@   ensures putclock >= old(putclock)
+//@   assigns putat, putclock
